@@ -232,8 +232,65 @@ class Interp:
         if obj.shape is not None and name in obj.shape.fields:
             return obj.shape.fields[name]
         if obj.kind == "obj":
-            return self.cset.class_field_shape(obj.cls, name)
+            sh = self.cset.class_field_shape(obj.cls, name)
+            if sh is None:
+                sh = self._inferred_field_shape(obj.cls, name)
+            return sh
         return None
+
+    def _class_constant(self, cls, name):
+        """a class-level constant `NAME = <literal arithmetic>` read from the class's real source"""
+        spec = self.cset.classes.get(cls)
+        if spec is None or not spec.file:
+            return None
+        from . import extract as X
+        try:
+            src, tree = X.load_module(spec.file)
+        except Exception:       # noqa
+            return None
+        for n in ast.walk(tree):
+            if isinstance(n, ast.ClassDef) and n.name == cls:
+                for st in n.body:
+                    if isinstance(st, ast.Assign) and len(st.targets) == 1 and isinstance(st.targets[0], ast.Name) and \
+                            st.targets[0].id == name:
+                        if all(isinstance(x, (ast.Constant, ast.BinOp, ast.UnaryOp, ast.operator, ast.unaryop, ast.Load))
+                               for x in ast.walk(st.value)):
+                            self.frames.append(Frame(None, {}))
+                            try:
+                                return self.eval(st.value)
+                            finally:
+                                self.frames.pop()
+        return None
+
+    def _inferred_field_shape(self, cls, name):
+        """a private attribute the contract set does not declare (e.g. state introduced by a change): if the class's
+        real source initialises it in __init__ with a literal, it is explored as an ARBITRARY value of that literal's
+        type (bool / int / float / str / None-or-unknown); noted in the evidence.  Nothing is assumed about it."""
+        cache = self.__dict__.setdefault("_inferred_fields", {})
+        if (cls, name) in cache:
+            return cache[(cls, name)]
+        sh = None
+        spec = self.cset.classes.get(cls)
+        if spec is not None and spec.file and name.startswith("_"):
+            from . import extract as X
+            try:
+                node, _ = X.find_def(spec.file, cls + ".__init__")
+            except X.ExtractError:
+                node = None
+            if node is not None:
+                for st in ast.walk(node):
+                    if isinstance(st, ast.Assign) and len(st.targets) == 1 and isinstance(st.targets[0], ast.Attribute) \
+                            and isinstance(st.targets[0].value, ast.Name) and st.targets[0].value.id == "self" and \
+                            st.targets[0].attr == name and isinstance(st.value, ast.Constant):
+                        v = st.value.value
+                        from .vals import Bool as _B, Int as _I, Real as _R, Str as _S
+                        sh = {bool: _B, int: _I, float: _R, str: _S}.get(type(v))
+                        break
+        if sh is not None:
+            self.note("attribute %s.%s is not declared by the contract set: explored as an arbitrary value of the type "
+                      "its __init__ gives it" % (cls, name))
+        cache[(cls, name)] = sh
+        return sh
 
     def read_field(self, obj, name, heap=None):
         h = heap or self.heap
@@ -1100,6 +1157,9 @@ class Interp:
                 if fc.is_property:
                     return self.call_contract(fc, base, [], {}, node)
                 return VFn("bound", obj=obj, name=attr, fc=fc)
+            cv = self._class_constant(obj.cls, attr)
+            if cv is not None:
+                return cv
             raise Unsupported("no shape or contract for attribute %s.%s (class %s)" % (obj.name, attr, obj.cls))
         if base.tag == "tuple":
             if base.fields and attr in base.fields:
@@ -2188,8 +2248,13 @@ class Interp:
             if fc is not None:
                 self.call_contract(fc, base, [v], {}, t)
                 return
-            if self.field_shape(base.ref, t.attr) is None and (base.ref, t.attr) not in self.heap.data \
-                    and base.ref.shape is not None and not getattr(base.ref, "fresh", False):
+            inferred = (base.ref.cls, t.attr) in self.__dict__.get("_inferred_fields", {}) and \
+                self._inferred_fields[(base.ref.cls, t.attr)] is not None if base.ref.kind == "obj" else False
+            declared = (base.ref.shape is not None and t.attr in base.ref.shape.fields) or \
+                (base.ref.kind == "obj" and self.cset.class_field_shape(base.ref.cls, t.attr) is not None)
+            if (not declared and base.ref.shape is not None and not getattr(base.ref, "fresh", False)
+                    and (inferred or (base.ref, t.attr) not in self.heap.data
+                         or (base.ref, t.attr) in self.undeclared_fields)):
                 # a field the contracts do not know (e.g. introduced by a change to the code): it is stored like any
                 # other field, but it is outside the specified state - no frame obligation is generated for it
                 self.undeclared_fields.add((base.ref, t.attr))
